@@ -77,5 +77,11 @@ def run(ctx):
     ctx.require(na_ >= 150 and ns_ >= 100, 'too few slot functions / chunk loops found (%d, %d)' % (na_, ns_))
 
 
+    ctx.rule('CHUNK-VAR', 'in every chunk loop that computes its piece length as W = (len >= B) ? B : len (B the staging capacity, len what is left of the request) the capacity B is not used again '
+             'in the loop body after that statement: converters, copies and block workers are handed W, so nothing reads past the caller\'s data or stores past the request', floor=50)
+    from engine.chunkvar import chunk_var
+    n_cv = chunk_var(ctx, prog)
+    ctx.require(n_cv >= 50, 'only %d chunk loops with a min (capacity, request) piece length found' % n_cv)
+
     from engine.run import borrow
     borrow(ctx, 'C03', ['TABLE-INDEX'], 'a write call whose sample value steers a table subscript outside the table reads memory outside anything the caller supplied (G.711 float encoders)')
